@@ -1,6 +1,7 @@
 package node
 
 import (
+	"bytes"
 	"crypto/sha256"
 	"encoding/hex"
 	"encoding/json"
@@ -252,7 +253,9 @@ func SubprocessReplica(s Stream, env []string, dir string) ([]string, [][]string
 	if err != nil {
 		return nil, nil, "", err
 	}
-	defer os.Remove(f.Name())
+	if os.Getenv("TSIM_KEEP") == "" {
+		defer os.Remove(f.Name())
+	}
 	if err := json.NewEncoder(f).Encode(s); err != nil {
 		return nil, nil, "", err
 	}
@@ -269,6 +272,11 @@ func SubprocessReplica(s Stream, env []string, dir string) ([]string, [][]string
 		Digests []string   `json:"digests"`
 		Parts   [][]string `json:"parts"`
 		Halt    string     `json:"halt"`
+	}
+	// the application may print to stdout (the ETH client does when it cannot create a temp directory):
+	// the result is the last line
+	if i := bytes.LastIndexByte(bytes.TrimRight(out, "\n"), '\n'); i >= 0 {
+		out = out[i+1:]
 	}
 	if err := json.Unmarshal(out, &res); err != nil {
 		return nil, nil, "", err
